@@ -6,7 +6,10 @@ here=$(cd "$(dirname "$0")/.." && pwd)
 src=${1:?repaired tree}; shift
 pats=("$@"); [ ${#pats[@]} -eq 0 ] && pats=($(ls $here/mutants/C19-*.patch | xargs -n1 basename))
 base=$(mktemp -d /tmp/c19-mut.XXXXXX)
-suite() { for i in $(seq 1 40); do make -C "$1" test > "$2" 2>&1; grep -q 'Address already in use' "$2" || break; sleep $((RANDOM % 5 + 2)); done; grep passed "$2" > "$2.passed"; }
+# the suite's socket test binds the fixed endpoint 127.0.0.1:31737; wait until no connection (TIME_WAIT of an earlier run,
+# another tree's run) holds it, and retry when the bind still loses the race
+portfree() { for w in $(seq 1 90); do awk '$2 ~ /:7BF9$/ || $3 ~ /:7BF9$/' /proc/net/tcp | grep -q . || return 0; sleep 2; done; }
+suite() { for i in $(seq 1 20); do portfree; make -C "$1" test > "$2" 2>&1; grep -q 'Address already in use' "$2" || break; sleep $((RANDOM % 5 + 2)); done; grep passed "$2" > "$2.passed"; }
 cp -a "$src" $base/ref; suite $base/ref $base/ref.log
 for p in "${pats[@]}"; do
   d=$base/m; rm -rf $d; cp -a "$src" $d
